@@ -27,6 +27,17 @@ func init() {
 		},
 		Run:    c03Run,
 		Floors: c03Floors,
+		Extra: func(m *Merged, tier string) map[string]interface{} {
+			k := 2
+			if tier == "thorough" {
+				k = 3
+			}
+			sub := []string{fmt.Sprintf("%s", "every boolean-core tree with <=2 internal nodes x every leaf labelling (with registered operators wrapped around every second variable) x every true/false assignment x all 16 optimization subsets")}
+			if k == 3 {
+				sub = append(sub, "trees with 3 internal nodes: every shape, labellings sampled as stated in 'rule'")
+			}
+			return map[string]interface{}{"exhaustive_subspaces": sub, "enumerated_shapes": len(shapesUpTo(k))}
+		},
 	})
 }
 
